@@ -90,8 +90,8 @@ Inductive case :=
 | CParseInt (text : bytes) (res : option Z)
 (* real config.RenderWithTemplate on the document the segments spell, with the given environment *)
 | CTemplate (envs : list (bytes * bytes)) (segs : list tseg) (res : tresult)
-(* real frps flag set: --dashboard_tls_mode <arg> (+ cert and key file flags): parse error?, webServer.tls set? *)
-| CTlsFlag (arg : bytes) (parse_err enabled : bool).
+(* real frps flag set: --dashboard_tls_mode <arg> with the cert and key file flags: parse error?, webServer.tls *)
+| CTlsFlag (arg cert key : bytes) (parse_err : bool) (tls : option TLSConfig).
 
 (* property monitor on the observed data alone: when the server accepted the registration, what it
    holds is the client's configuration minus the client-only fields, completed *)
@@ -168,8 +168,11 @@ Definition check_case (c : case) : Z :=
       | TErr, TErr => 0
       | _, _ => 82
       end
-  | CTlsFlag arg parse_err enabled =>
-      if parse_err then 91 else if Bool.eqb (bff_enables_tls arg) enabled then 0 else 92
+  | CTlsFlag arg cert key parse_err tls =>
+      match flags_web_tls arg cert key with
+      | None => if parse_err then 0 else 91
+      | Some t => if parse_err then 91 else if lit_opt_eqb eqb_TLSConfig t tls then 0 else 92
+      end
   end.
 
 (* counters: which model branches the generated cases reached *)
@@ -199,3 +202,4 @@ Definition is_unknown_type (c : case) : bool :=
 Definition is_no_return (c : case) : bool :=
   match c with CRangeNumbers _ RNNoReturn | CPairs _ _ PairsNoReturn => true | _ => false end.
 Definition is_template_ok (c : case) : bool := match c with CTemplate _ _ (TOk _) => true | _ => false end.
+Definition is_tls_flag_on (c : case) : bool := match c with CTlsFlag _ _ _ false (Some _) => true | _ => false end.
